@@ -414,11 +414,11 @@ func TestVerif_C16(t *testing.T) {
 				if p.deposit != nil && strings.Contains(msg, "invalid asset info") {
 					// the recorded finding is about pending FIRST deposits of one fresh asset; a deposit that names other
 					// data for an asset whose data was already recorded when it was validated is something else
+					// (decided by what the ledger held when this deposit was validated, not by how the workload meant it: the
+					// very first deposit of BTC in a run may be the one that spells its key in another letter case)
 					class = "deposit-naming-other-data-for-a-known-asset"
-					for _, kd := range p.kinds {
-						if kd == "deposit-same-fresh-asset-different-chain-data" {
-							class = "pending-first-deposits-of-one-asset-with-different-chain-data"
-						}
+					if !p.deposit.knownAtVal {
+						class = "pending-first-deposits-of-one-asset-with-different-chain-data"
 					}
 				}
 				if p.deposit != nil && strings.Contains(site, "writeTotalInAsset") {
